@@ -58,6 +58,17 @@ def near_miss(pw, significant=None):
     return pw[:k] + bytes([nb]) + pw[k + 1:]
 
 
+class LibpassAdapter:
+    """libpass hashers under the calling convention of the sweep (verify(password, stored))"""
+
+    def __init__(self, fmt):
+        from libpass.hashers.sha_crypt import SHA256Hasher, SHA512Hasher
+        self.cls = {"sha256_crypt": SHA256Hasher, "sha512_crypt": SHA512Hasher}[fmt]
+
+    def verify(self, pw, stored):
+        return self.cls().verify(stored, pw)
+
+
 class Sweep:
     def __init__(self, chk, quick, rnd):
         self.chk, self.quick, self.rnd = chk, quick, rnd
@@ -113,6 +124,13 @@ def build(sw):
                 salt = salt_text(rnd.choice([2, 16]))
                 sw.add(name, dict(fmt=name, plen=plen, rounds=rounds, explicit=rounds != 5000), dict(password=content("bytes", plen, rnd), salt=salt.encode()),
                        lambda h, pw, salt=salt, rounds=rounds: h.using(salt=salt, rounds=rounds).hash(pw))
+    # ---- the same two formats as computed by libpass's own hashers (costs around the 42-round blocks of the optimised loop) ----
+    for name, alg in (("sha256_crypt", "sha256"), ("sha512_crypt", "sha512")):
+        for rounds in ([1000, 1009, 1042, 1043, 5000, 5041] if quick else [1000, 1001, 1006, 1007, 1008, 1009, 1010, 1041, 1042, 1043, 1050, 1051, 1083, 1084, 1085, 2048, 5000, 5041]):
+            for plen in ((7, 64) if not quick else (rnd.choice([7, 17, 64]),)):
+                salt = salt_text(rnd.choice([2, 16]))
+                sw.add("libpass:" + name, dict(fmt=name, plen=plen, rounds=rounds, explicit=True), dict(password=content("bytes", plen, rnd), salt=salt.encode()),
+                       lambda h, pw, salt=salt, rounds=rounds: h.cls(rounds=rounds).hash(pw, salt=salt), label="libpass/" + name)
     # ---- {CRYPT} wrappers, plaintext ---------------------------------------------------------------
     for k, plen in enumerate(sw.plens()[:10]):
         pw = content(sw.kinds(plen)[0], plen, rnd)
@@ -200,7 +218,7 @@ def build(sw):
                lambda h, pw, salt=salt, rounds=rounds, v=v: h.using(salt=salt, rounds=rounds, variant=v).hash(pw))
     for plen in list(range(0, 18)) + [27, 28, 29, 31, 32]:
         for ulen in (0, 1, 3, 4, 5, 9):
-            user = content("ascii", ulen, rnd)
+            user = content("utf8" if (ulen >= 2 and (plen + ulen) % 2) else "ascii", ulen, rnd)      # (lengths count UTF-8 bytes: the first FOUR BYTES of the user are mixed in)
             pw = content(["ascii", "bytes"][plen % 2], plen, rnd)
             if plen <= 16:
                 sw.add("cisco_pix", dict(fmt="cisco_pix", plen=plen, ulen=ulen), dict(password=pw, user=user),
@@ -239,7 +257,8 @@ def build(sw):
         sw.add("scrypt", dict(fmt="scrypt", rounds=ln, r=r, p=p), dict(password=pw, salt=salt),
                lambda h, pw, salt=salt, ln=ln, r=r, p=p: h.using(salt=salt, rounds=ln, block_size=r, parallelism=p).hash(pw))
     # scrypt's own "$7$" spelling (salt is text there)
-    for k, (ln, r, p) in enumerate([(1, 1, 1), (2, 8, 1), (4, 2, 3), (3, 1, 2), (1, 63, 1), (1, 64, 1), (2, 1, 65)]):
+    for k, (ln, r, p) in enumerate([(1, 1, 1), (2, 8, 1), (4, 2, 3), (3, 1, 2), (1, 63, 1), (1, 64, 1), (2, 1, 65),
+                                   (1, 4096, 1), (1, 1, 4097), (1, 266305, 1) if not quick else (1, 4160, 1)]):     # fields that need the third and fourth digit
         plen = sw.plens()[k % len(sw.plens())]
         pw = content(sw.kinds(plen)[0], plen, rnd)
         st = salt_text([0, 1, 14, 22][k % 4])
@@ -310,6 +329,8 @@ def run(chk):
     chk.extra["spec_programs_validated_against_providers"] = validated
     for c in sw.cases:
         name = c["handler"]
+        if name.startswith("libpass:") and name not in handlers:
+            handlers[name] = LibpassAdapter(name.split(":")[1])
         if name not in handlers:
             h = registry.get_crypt_handler(name)
             if hasattr(h, "set_backend") and hasattr(h, "backends") and "builtin" in getattr(h, "backends", ()):
